@@ -409,6 +409,26 @@ async fn run_async<H: HX>(ops: &str, annot: &str, imp: &str) {
                 out.emit(line, &format!("NB {} ; EQ {}", r1.flatten().map(|x| x.to_string()).unwrap_or("-".into()), r1 == r2));
                 continue;
             }
+            // RAW <GET|POST> <path>: a request whose id segment is not a backtest id (`-1`, `abc`, `1.5`, 2^64). No in-process
+            // call corresponds to it: it must be refused (4xx) and must leave every backtest as it was
+            if t[0] == "RAW" {
+                let req = if t[1] == "POST" {
+                    let body = if t[2].ends_with("insert_order") { H::insert_body(&H::rand_ins(&mut Rng::new(7)).split(' ').collect::<Vec<_>>()) } else { H::delete_body(&["0", "0"]) };
+                    test::TestRequest::post().set_json(body).uri(t[2]).to_request()
+                } else {
+                    test::TestRequest::get().uri(t[2]).to_request()
+                };
+                let resp = test::call_service(&app, req).await;
+                let status = resp.status().as_u16();
+                out.stats.bump(&format!("RAW_{status}"));
+                let seq = {
+                    let h = data.lock().unwrap_or_else(|e| e.into_inner());
+                    let ids = direct.ids();
+                    h.last() == direct.last() && h.ids() == ids && ids.iter().all(|b| canon_eq(&h.snap(*b).unwrap_or_default(), &direct.snap(*b).unwrap_or_default()) && h.clock(*b) == direct.clock(*b))
+                };
+                out.emit(line, &format!("ST {status} ; J - ; EQ {} ; SEQ {seq} ; CL - ; TC -", (400..500).contains(&status)));
+                continue;
+            }
             let bt = if t[0] == "INIT" { 0 } else { pu(t[1]) };
             let mut ann = line.clone();
             let (req, want): (actix_http::Request, Option<Value>) = match t[0] {
